@@ -149,6 +149,18 @@ def check(P, R):
     f = P.func(f'{H}:parse_qsl')
     g, rd = f.cfg, f.rd
     mod = f.module
+    # shape-independent: the separators are looked for in the raw text - what has been percent-decoded is never split again
+    n_split = 0
+    for c in walk_shallow(f.node):
+        if isinstance(c, ast.Call) and call_attr(c) in ('partition', 'rpartition', 'split', 'rsplit', 'find', 'index') and c.args \
+                and isinstance(c.args[0], ast.Constant) and c.args[0].value in ('=', '&', ';'):
+            n_split += 1
+            cl = rd.closure_nodes(c.func.value, g.node_of_stmt(c)[0], follow_mut=False)
+            dec = [x for x in cl if isinstance(x, ast.Call) and (dotted(x.func) or '').split('.')[-1] in ('urlunquote', 'unquote', 'unquote_plus', 'unquote_to_bytes')]
+            R.ob('C18.d', f, c, not dec, text=f'`{short(c)}` works on the still-escaped text', detail='' if not dec else
+                 f'`{short(c)}` separates text that `{short(dec[0])}` has already percent-decoded: an escaped separator inside a name (%3D, %26) is decoded first and then '
+                 f'taken for the real separator - `sum%28a%3Db%29=yes` parses to (\'sum(a\', \'b)=yes\')',
+                 why='parsing the encoding of a list of pairs yields the same pairs, separators inside keys and values included', key_extra='split-before-decode')
     whiles = [n for n in walk_shallow(f.node) if isinstance(n, ast.While)]
     R.require(len(whiles) == 1, f'{f.fq}: expected one scanning loop')
     loop = whiles[0]
@@ -386,6 +398,28 @@ def check_add(P, R, f):
         ok = ok or (first_from_seen and isinstance(e1, ast.Name) and e1.id == v)
     R.ob('C18.c', a, lists[0] if lists else a.node, ok, text='second value -> [first, second]', detail='' if ok else
          'the promotion does not build [first value, new value] in that order')
+    # the promoted list is also kept where the next occurrence of the key looks for it
+    for L in lists:
+        st_ = stmt_of(L)
+        kept = False
+        names_ = set()
+        if isinstance(st_, ast.Assign) and st_.value is L:
+            for t_ in st_.targets:
+                if isinstance(t_, ast.Subscript) and dotted(t_.value) and src(t_.slice) == k:
+                    kept = True
+                elif isinstance(t_, ast.Name):
+                    names_.add(t_.id)
+        for n2 in ast.walk(a.node):
+            if isinstance(n2, ast.Assign) and isinstance(n2.value, ast.Name) and n2.value.id in names_ and any(
+                    isinstance(t_, ast.Subscript) and dotted(t_.value) and src(t_.slice) == k for t_ in n2.targets):
+                kept = True
+            if isinstance(n2, ast.Call) and call_attr(n2) in ('setdefault', '__setitem__') and dotted(n2.func.value) and len(n2.args) == 2 and src(n2.args[0]) == k \
+                    and ((isinstance(n2.args[1], ast.Name) and n2.args[1].id in names_) or n2.args[1] is L) and dotted(n2.func) not in sink_names:
+                kept = True
+        R.ob('C18.c', a, L, kept, text=f'the promoted list `{short(L)}` is remembered under the key', detail='' if kept else
+             f'the list built for the second occurrence is handed to the container but not stored where the next occurrence looks the key up: a third occurrence is '
+             f'treated as a second one again and replaces the entry by [first, third] (a=1&a=2&a=3 -> [\'1\', \'3\'])',
+             why='repeated keys are collected as lists in submission order', key_extra='promotion-kept')
     apps = [c for c in ast.walk(a.node) if isinstance(c, ast.Call) and call_attr(c) == 'append' and len(c.args) == 1
             and isinstance(c.args[0], ast.Name) and c.args[0].id == v]
     ins = [c for c in ast.walk(a.node) if isinstance(c, ast.Call) and call_attr(c) in ('insert', 'sort', 'reverse')]
